@@ -148,6 +148,23 @@ func c20Sequence(ctx *Ctx, i int, rng *rand.Rand) {
 				loops--
 				started = false
 				waitq++
+				// Stop returns as soon as the loop has taken the signal; the agent may be started
+				// again once Wait has returned (the property's wording), so wait right away
+				res := make(chan error, 1)
+				go func() { res <- a.Wait() }()
+				select {
+				case err := <-res:
+					if err == nil {
+						emit("wait", "LWait", "(RWait WNil)", 0)
+					} else {
+						emit("wait", "LWait", "(RWait WErr)", 0)
+					}
+					waitq--
+				case <-time.After(2 * time.Second):
+					emit("wait", "LWait", "RNone", 0)
+					mon = append(mon, "c20-wait-blocked: Wait did not return within 2 s after Stop")
+					waitq--
+				}
 			case <-time.After(2 * time.Second):
 				emit("stop", "LStop", "RNone", 0)
 				mon = append(mon, "c20-stop-blocked: Stop did not return within 2 s although a keep-alive loop should be running")
